@@ -23,6 +23,10 @@ Step(mm, e) ==
     CASE e.e = "begin" -> [mm EXCEPT !.tr = e.idx, !.name = e.name, !.nreq = 0]
       [] e.e = "req"   -> [mm EXCEPT !.nreq = @ + 1]
       [] e.e = "panic" -> Report(mm, e)
+      \* engine W (real Server.handle + protocol objects over in-memory streams): the harness process died in the code under
+      \* test while it served this history of well-formed requests
+      [] e.e = "wreq"   -> [mm EXCEPT !.nreq = @ + 1]
+      [] e.e = "wcrash" -> Report(mm, [site |-> e.frame, msg |-> e.fatal, op |-> "connection"])
       [] OTHER -> mm
 
 Init == l = 1 /\ m = [tr |-> 0, name |-> "", nreq |-> 0, nv |-> 0]
